@@ -135,7 +135,7 @@ macro_rules! belt_fronts {
             core.set_block_pos($blk0);
             core.apply_keystream_blocks(blocks_mut::<U16>(&mut a));
             let mut b = msg;
-            let mut s = belt_ctr::BeltCtr::<UfE<U16, $par>>::new(&key.into(), blk::<U16>(&iv));
+            let mut s = crate::common::belt_alias::<$par>(key, &iv);
             s.seek(($blk0 as u64) * B as u64);
             {
                 let (p1, p2) = b.split_at_mut(5);
